@@ -31,3 +31,204 @@ Proof. exact C13.Proofs.commit_ops_eq. Qed.
 Theorem remove_first_refuted :
   exists k, f_dest (crash k ([CreateTemp; Write [1]] ++ [Chmod; CloseF; RemoveDest; Rename]) (mkFs [] (Some [0]) None)) = None.
 Proof. exact C13.Proofs.remove_first_refuted. Qed.
+
+(* ===================================================================================================================
+   Session 4: the file system with names, inodes and symbolic links; every strategy as a plan assembled from the
+   generated scripts (C13/Fs.v, C13/Strategies.v); crash at every call boundary, error at every step.
+   =================================================================================================================== *)
+From Relic Require Import C13.Fs C13.FsProofs C13.Strategies C13.StratProofs.
+
+(* any plan with the write-rename shape (create sibling temporary, touch only it, never ignore a failing data call, unlink it
+   on every way out, rename it over the destination as the last call) satisfies everything the property says: killed after
+   any number of calls the destination reads as before or as the complete new content and is never lost, no existing inode
+   (the input, under any name) changes, every other name reads as before; after completion and after an error returned by
+   ANY call no temporary is left and, on error, every name reads as before *)
+Theorem protocol_safe : forall pt pd it s0 pl,
+  pt <> pd -> fresh pt it s0 -> check pt pd it 0 pl = Some 2%nat -> safe_plan pt pd it s0 pl.
+Proof. exact C13.FsProofs.protocol_safe. Qed.
+
+(* also for a plan that stops early (the inputs make a step fail): killed at any point, same guarantees *)
+Theorem protocol_crash_any : forall pt pd it s0, pt <> pd -> dirent s0 pt = None ->
+  (forall q, dirent s0 q <> Some (EFile it)) -> (forall q, dirent s0 q <> Some (ELink pt)) ->
+  forall pl ph' k, check pt pd it 0 pl = Some ph' ->
+  let s := scrash k pl s0 in
+  let new := idata (srun (ops_of pl) s0) it in
+  spec_dest_old_or_new pd new s0 s /\ spec_dest_not_lost pd s0 s /\ spec_inodes_untouched it s0 s /\ spec_other_names pt pd s0 s.
+Proof. exact C13.FsProofs.protocol_crash_read. Qed.
+
+(* giving up may come late (a library drops a write error and keeps writing; relic's sticky writer reports it when the call
+   returns): while only the temporary is touched in between, the outcome is the same *)
+Theorem protocol_fault_delayed : forall pt pd it s0, pt <> pd -> dirent s0 pt = None ->
+  forall pl ph' n m extra st,
+  check pt pd it 0 pl = Some ph' -> nth_error pl n = Some st -> cleanup_removes pt (p_cleanup st) = true ->
+  forallb (local_op it) (firstn extra (skipn (S n) (ops_of pl))) = true ->
+  let s := fault_delayed n m extra pl s0 in
+  (forall q, dirent s q = dirent s0 q) /\ (forall i, i <> it -> idata s i = idata s0 i).
+Proof. exact C13.FsProofs.protocol_fault_delayed. Qed.
+
+(* --- the strategies, for all inputs, every kind of destination (absent, regular, symbolic link, the input itself) --- *)
+Theorem whole_safe : forall pt pd it s0, pt <> pd -> fresh pt it s0 ->
+  forall writes, safe_plan pt pd it s0 (whole_plan pt pd it writes).
+Proof. exact C13.StratProofs.whole_safe. Qed.
+Theorem writefile_safe : forall pt pd it s0, pt <> pd -> fresh pt it s0 ->
+  forall data, safe_plan pt pd it s0 (writefile_plan pt pd it data).
+Proof. exact C13.StratProofs.writefile_safe. Qed.
+Theorem rewrite_safe : forall pt pd it iin s0, pt <> pd -> fresh pt it s0 ->
+  forall insize ps, safe_plan pt pd it s0 (rewrite_plan pt pd it iin insize ps).
+Proof. exact C13.StratProofs.rewrite_safe. Qed.
+Theorem msi_safe : forall pt pd it iin s0, pt <> pd -> fresh pt it s0 ->
+  forall insize nreads e1 e2, safe_plan pt pd it s0 (msi_plan pt pd it iin insize nreads e1 e2).
+Proof. exact C13.StratProofs.msi_safe. Qed.
+Theorem pgp_safe : forall pt pd it s0, pt <> pd -> fresh pt it s0 ->
+  forall inline clearsign io, safe_plan pt pd it s0 (pgp_plan pt pd it inline clearsign io).
+Proof. exact C13.StratProofs.pgp_safe. Qed.
+
+(* the complete new content, as a function of the inputs *)
+Theorem whole_content : forall pt pd it iin, iin <> it -> forall writes s0,
+  idata (srun (ops_of (whole_plan pt pd it writes)) s0) it = spec_whole writes.
+Proof. exact C13.StratProofs.whole_content. Qed.
+Theorem pgp_content : forall pt pd it iin, iin <> it -> forall inline clearsign io s0,
+  idata (srun (ops_of (pgp_plan pt pd it inline clearsign io)) s0) it = spec_merge io.
+Proof. exact C13.StratProofs.pgp_content. Qed.
+Theorem msi_content : forall pt pd it iin, iin <> it -> forall insize nreads e1 e2 s0,
+  idata (srun (ops_of (msi_plan pt pd it iin insize nreads e1 e2)) s0) it = spec_msi (zslice 0 insize (idata s0 iin)) (e1 ++ e2).
+Proof. exact C13.StratProofs.msi_content. Qed.
+
+Theorem rewrite_content : forall pt pd it iin, iin <> it -> forall insize ps s0, insize = zlen (idata s0 iin) ->
+  idata (srun (ops_of (rewrite_plan pt pd it iin insize ps)) s0) it = spec_rewrite_from (idata s0 iin) 0 ps.
+Proof. exact C13.StratProofs.rewrite_content. Qed.
+
+(* --- binpatch.Apply: exactly when the input is overwritten in place; otherwise the protocol --- *)
+Theorem inplace_iff : forall st lst reg same sys cw nlink ps n,
+  apply_decision st lst reg same sys cw nlink ps n <> None <->
+  st = true /\ lst = true /\ reg = true /\ same = true /\ cw = true /\ (sys = true -> nlink = 1) /\ shape_ok ps n.
+Proof. exact C13.StratProofs.inplace_iff. Qed.
+Theorem inplace_needs_same_name : forall pd iin s cw nlink ps n size,
+  apply_decision_fs pd iin s cw nlink ps n = Some size -> dirent s pd = Some (EFile iin) /\ cw = true /\ nlink = 1 /\ shape_ok ps n.
+Proof. exact C13.StratProofs.inplace_needs_same_name. Qed.
+Theorem apply_not_inplace_safe : forall pt pd it iin s0 st lst reg same sys cw nlink insize ps,
+  pt <> pd -> fresh pt it s0 ->
+  apply_decision st lst reg same sys cw nlink ps insize = None ->
+  safe_plan pt pd it s0 (apply_plan pt pd it iin (apply_decision st lst reg same sys cw nlink ps insize) insize ps).
+Proof. exact C13.StratProofs.apply_not_inplace_safe. Qed.
+(* the exemption is needed: in place is not crash safe *)
+Theorem inplace_torn_refuted :
+  exists ps size k,
+    apply_decision true true true true true true 1 ps 2 = Some size /\
+    let pl := inplace_plan 3 1 10 ps size in
+    let s := scrash k pl s_demo in
+    sread s 1 <> sread s_demo 1 /\ sread s 1 <> sread (srun (ops_of pl) s_demo) 1.
+Proof. exact C13.StratProofs.inplace_torn_refuted. Qed.
+
+(* --- WriteAny: "-" is standard output (no file is touched); special files are written directly; everything else,
+   including a symbolic link to a regular file and a dangling link, gets the protocol --- *)
+Theorem stdout_no_file_effect : forall pt pd prims k s0,
+  forallb stdout_prim_ok prims = true ->
+  let s := scrash k (stdout_plan pt pd prims) s0 in
+  (forall q, dirent s q = dirent s0 q) /\ (forall i, idata s i = idata s0 i).
+Proof. exact C13.StratProofs.stdout_no_file_effect. Qed.
+Theorem writeany_dash : forall s pd, writeany_strategy true s pd = 0.
+Proof. exact C13.StratProofs.writeany_dash. Qed.
+Theorem writeany_atomic_iff : forall s pd, writeany_strategy false s pd = 2 <-> dest_is_special s pd = false.
+Proof. exact C13.StratProofs.writeany_atomic_iff. Qed.
+Theorem dest_special_iff : forall s pd,
+  dest_is_special s pd = true <->
+  dirent s pd = Some ESpecial \/
+  exists q, dirent s pd = Some (ELink q) /\ (dirent s q = Some ESpecial \/ exists q', dirent s q = Some (ELink q')).
+Proof. exact C13.StratProofs.dest_special_iff. Qed.
+Theorem temp_naming : temp_in_dest_dir && temp_prefix_base_tmp && commit_renames_temp && commit_renames_to_dest && close_removes_temp = true.
+Proof. exact C13.StratProofs.temp_naming. Qed.
+
+(* --- sequential signings to one destination: the next one sees the complete output of the previous one, and killed at any
+   point leaves that or its own complete output --- *)
+Theorem history_complete : forall pd jobs j s0,
+  jobs_ok pd (jobs ++ [j]) s0 ->
+  sread (run_jobs (jobs ++ [j]) s0) pd = Some (job_content j (run_jobs jobs s0)).
+Proof. exact C13.FsProofs.history_complete. Qed.
+Theorem history_crash : forall pd jobs j s0 k,
+  jobs_ok pd (jobs ++ [j]) s0 ->
+  let s1 := run_jobs jobs s0 in
+  let s := scrash k (j_plan j) s1 in
+  spec_dest_old_or_new pd (job_content j s1) s1 s /\ spec_dest_not_lost pd s1 s /\ spec_inodes_untouched (j_it j) s1 s.
+Proof. exact C13.FsProofs.history_crash. Qed.
+
+(* --- the one way a temporary can stay behind after a handled error: the unlink in the error handler fails too --- *)
+Theorem cleanup_unlink_failure_refuted :
+  exists n, dirent (fault_unlink_fails n 0 (whole_plan 3 2 20 [[5]]) s_demo) 3 <> None /\
+            dirent (fault n 0 (whole_plan 3 2 20 [[5]]) s_demo) 3 = None.
+Proof. exact C13.StratProofs.cleanup_unlink_failure_refuted. Qed.
+
+(* --- two ways out of the protocol, each with a witness --- *)
+(* a data call whose failure is dropped (MergeClearSign's deferred Flush, before relic 168ab2b): when it fails the code goes on
+   and commits a file that is neither the previous nor the complete new content; on the current source the flag is false *)
+Theorem dropped_flush_refuted :
+  exists io n,
+    let pl := pgp_plan_gen 3 2 20 true false true io in
+    check 3 2 20 0 pl = None /\
+    (exists st, nth_error pl n = Some st /\ p_onerr st = Ignore) /\
+    let s := fault n 0 pl s_demo in
+    sread s 2 <> sread s_demo 2 /\ sread s 2 <> sread (srun (ops_of pl) s_demo) 2.
+Proof. exact C13.StratProofs.dropped_flush_refuted. Qed.
+Theorem flush_not_dropped : clearsign_flush_dropped = false.
+Proof. exact C13.StratProofs.flush_not_dropped. Qed.
+(* pe-coff from the command line: Apply commits by rename, THEN the destination is opened read-write and the checksum written
+   into it (cmdline/*/signcmd.go, FixPEChecksum): not a protocol run, and killed before that last write the destination is
+   neither the previous nor the final content.  Recorded finding C13:fixup-after-commit:pe-checksum. *)
+Theorem fixup_not_protocol : forall pt pd it iin insize ps nreads off cksum,
+  check pt pd it 0 (pe_sign_plan pt pd it iin insize ps nreads off cksum) = None.
+Proof. exact C13.StratProofs.fixup_not_protocol. Qed.
+Theorem pe_fixup_refuted :
+  exists ps nreads off cksum k,
+    let pl := pe_sign_plan 3 2 20 10 2 ps nreads off cksum in
+    let s := scrash k pl s_demo in
+    sread s 2 <> sread s_demo 2 /\ sread s 2 <> sread (srun (ops_of pl) s_demo) 2.
+Proof. exact C13.StratProofs.pe_fixup_refuted. Qed.
+
+(* --- non-vacuity --- *)
+Example fresh_demo : fresh 3 20 s_demo /\ (3 <> 2).
+Proof.
+  split; [|discriminate]. repeat split.
+  - intros q. cbn. repeat match goal with |- context [if ?c then _ else _] => destruct c end; discriminate.
+  - intros q. cbn. repeat match goal with |- context [if ?c then _ else _] => destruct c end; discriminate.
+Qed.
+Example safe_demo : safe_plan 3 2 20 s_demo (rewrite_plan 3 2 20 10 2 [mkPatch 1 1 [9; 9]]).
+Proof. destruct fresh_demo as [F N]. apply rewrite_safe; assumption. Qed.
+(* destination = the input itself (sign in place by rewrite), a symbolic link, absent *)
+Definition s_link : fsys :=
+  mkFsys (fun q => if q =? 1 then Some (EFile 10) else if q =? 2 then Some (ELink 5) else if q =? 5 then Some (EFile 11) else None)
+         (fun i => if i =? 10 then [1; 2] else if i =? 11 then [7] else []) [].
+Example same_path_demo : safe_plan 3 1 20 s_demo (rewrite_plan 3 1 20 10 2 [mkPatch 1 0 [9]]) /\
+  sread (srun (ops_of (rewrite_plan 3 1 20 10 2 [mkPatch 1 0 [9]])) s_demo) 1 = Some [1; 9; 2] /\
+  idata (srun (ops_of (rewrite_plan 3 1 20 10 2 [mkPatch 1 0 [9]])) s_demo) 10 = [1; 2].
+Proof.
+  split; [|split; reflexivity]. apply rewrite_safe; [discriminate|]. repeat split.
+  - intros q. cbn. repeat match goal with |- context [if ?c then _ else _] => destruct c end; discriminate.
+  - intros q. cbn. repeat match goal with |- context [if ?c then _ else _] => destruct c end; discriminate.
+Qed.
+Example symlink_demo : safe_plan 3 2 20 s_link (whole_plan 3 2 20 [[4]; [5]]) /\
+  sread s_link 2 = Some [7] /\
+  sread (srun (ops_of (whole_plan 3 2 20 [[4]; [5]])) s_link) 2 = Some [4; 5] /\
+  sread (srun (ops_of (whole_plan 3 2 20 [[4]; [5]])) s_link) 5 = Some [7].
+Proof.
+  split; [|repeat split; reflexivity]. apply whole_safe; [discriminate|]. repeat split.
+  - intros q. cbn. repeat match goal with |- context [if ?c then _ else _] => destruct c end; discriminate.
+  - intros q. cbn. repeat match goal with |- context [if ?c then _ else _] => destruct c end; discriminate.
+Qed.
+Example natural_failures_demo :
+  natural_fault (rewrite_plan 3 2 20 10 2 [mkPatch 1 0 [9]; mkPatch 0 0 [8]]) <> None /\
+  natural_fault (rewrite_plan 3 2 20 10 2 [mkPatch 5 0 [9]]) <> None /\
+  natural_fault (rewrite_plan 3 2 20 10 2 [mkPatch 1 1 [9]]) = None.
+Proof. exact C13.StratProofs.rewrite_natural_failures. Qed.
+Example shape_demo : shape_ok [mkPatch 0 1 [9]; mkPatch 1 1 [8; 8]] 2 /\ ~ shape_ok [mkPatch 0 1 [9; 9]; mkPatch 1 1 [8]] 2.
+Proof. split; [cbn; split; [reflexivity|right; reflexivity]|cbn; intros [H _]; discriminate]. Qed.
+Example two_signings_demo :
+  jobs_ok 2 ([mkJob 3 20 (whole_plan 3 2 20 [[5]])] ++ [mkJob 4 21 (rewrite_plan 4 2 21 20 1 [mkPatch 1 0 [6]])]) s_demo /\
+  sread (run_jobs [mkJob 3 20 (whole_plan 3 2 20 [[5]]); mkJob 4 21 (rewrite_plan 4 2 21 20 1 [mkPatch 1 0 [6]])] s_demo) 2 = Some [5; 6].
+Proof.
+  split; [|reflexivity]. cbn [app jobs_ok j_pt j_it j_plan]. destruct fresh_demo as [F _].
+  split; [discriminate|]. split; [exact F|]. split; [apply whole_protocol|].
+  split; [discriminate|]. split; [|split; [apply rewrite_protocol|exact I]].
+  repeat split.
+  - intros q. cbn. repeat match goal with |- context [if ?c then _ else _] => destruct c end; discriminate.
+  - intros q. cbn. repeat match goal with |- context [if ?c then _ else _] => destruct c end; discriminate.
+Qed.
